@@ -135,7 +135,7 @@ Section Preds.
 
   Theorem choices_membership cs x :
     hashable (chashable E) x = true -> pred_eval E (PChoices cs) x = Ok (py_in x cs).
-  Proof. intros H. cbn [pred_eval]. rewrite H. reflexivity. Qed.
+  Proof. intros H. cbn [pred_eval]. rewrite H. destruct (unsub x); reflexivity. Qed.
 
   Theorem equal_to_is_eq m x :
     is_dec_snan (unsub m) = false -> is_dec_snan (unsub x) = false ->
